@@ -174,6 +174,29 @@ def run(ctx):
         if os.path.exists(tr):
             traces[drv].append((tr, prog["id"], sub, v))
 
+    # (b2) a dependency whose directory is excluded by configuration: no annotation of it may cross the package boundary, under
+    # either driver and in process alike (the drivers start the tool in different working directories)
+    for prog, exp, v in progs[:(4 if thorough else 2)]:
+        for pat in ("/d/", "/e/"):
+            c = {"exclude_paths": pat}
+            p2 = dict(prog)
+            p2["id"] = prog["id"] + "_ex" + pat.strip("/")
+            rin = proglib.run_vh(ctx, [p2], cfg=c)[p2["id"]]
+            rb = proglib.run_binary(ctx, p2, cfg=c)
+            rv = proglib.run_vet(ctx, p2, cfg=c)
+            runs += 3
+            ks = {"in-process": None if rin.get("fail") or rin.get("err") else proglib.keyset(rin["diags"]),
+                  "standalone": None if rb.get("fail") else proglib.keyset(rb.get("diags") or []),
+                  "vet": None if rv.get("fail") else proglib.keyset(rv.get("diags") or [])}
+            if ks["in-process"] is not None and pat == "/d/" and ks["in-process"] == exp:
+                raise vlib.ToolError("excluding the dependency's directory changes nothing (vacuous): %s" % v)
+            located = [k for k in (ks["standalone"] or set()) | (ks["vet"] or set()) if ("/" + k[0]).startswith(pat)]
+            if (None in ks.values() or len({frozenset(x) for x in ks.values()}) != 1 or located) and len(ctx.violations) < 3:
+                ctx.violation("dependency directory excluded with -config.exclude-paths=%s: the drivers disagree or report inside the excluded directory: %s"
+                              % (pat, {k: (sorted(x) if x is not None else "failed") for k, x in ks.items()}),
+                              {"kind": "program", "program": p2, "expected": sorted(ks["in-process"] or []), "observed": {k: sorted(x or []) for k, x in ks.items()},
+                               "cfg": c, "cats": [], "scenario": {"variant": v, "exclude": pat}})
+
     # (c) trace validation: generated programs, and the repository's own integration fixtures, both drivers
     fixtures = []
     fx_root = os.path.join(vlib.REPO, "testdata", "integration", "src")
